@@ -240,9 +240,14 @@ pub fn truncate(s: &str, n: usize) -> String {
     }
 }
 
+thread_local! { static IN_GUARD: std::cell::Cell<u32> = const { std::cell::Cell::new(0) }; }
+
 /// Run a closure, converting a panic into `Err(message)`.
 pub fn guarded<T>(f: impl FnOnce() -> T + std::panic::UnwindSafe) -> Result<T, String> {
-    match std::panic::catch_unwind(f) {
+    IN_GUARD.with(|g| g.set(g.get() + 1));
+    let r = std::panic::catch_unwind(f);
+    IN_GUARD.with(|g| g.set(g.get() - 1));
+    match r {
         Ok(v) => Ok(v),
         Err(e) => {
             let msg = if let Some(s) = e.downcast_ref::<&str>() {
@@ -257,9 +262,15 @@ pub fn guarded<T>(f: impl FnOnce() -> T + std::panic::UnwindSafe) -> Result<T, S
     }
 }
 
-/// Silence the default panic hook (panics of the subject are caught and reported as cases).
+/// Silence the panic hook for panics of the subject (caught by `guarded` and reported as cases);
+/// panics of the harness itself are still printed.
 pub fn quiet_panics() {
-    std::panic::set_hook(Box::new(|_| {}));
+    let default = std::panic::take_hook();
+    std::panic::set_hook(Box::new(move |info| {
+        if IN_GUARD.with(|g| g.get()) == 0 {
+            default(info);
+        }
+    }));
 }
 
 /// Wall-clock budget helper for capped tiers.
